@@ -233,6 +233,42 @@ impl StreamsState {
     }
 }
 
+#[cfg(feature = "quinn_rs_quinn_verif")]
+impl StreamsState {
+    /// What send streams still hold and what blocked applications wait for (verification hook, read-only)
+    pub(in crate::connection) fn verif_oblig(&self) -> crate::connection::verif::StreamsOb {
+        let mut send: Vec<crate::connection::verif::SendOb> = self
+            .send
+            .iter()
+            .filter_map(|(id, s)| {
+                s.as_ref().map(|s| crate::connection::verif::SendOb {
+                    id: id.0,
+                    offset: s.pending.offset(),
+                    max_data: s.max_data,
+                    unsent: s.pending.has_unsent_data(),
+                    fin_pending: s.fin_pending,
+                    connection_blocked: s.connection_blocked,
+                    ready: s.state == SendState::Ready,
+                    reset: s.is_reset(),
+                    stopped: s.stop_reason.is_some(),
+                })
+            })
+            .collect();
+        send.sort_unstable_by_key(|s| s.id);
+        let mut blocked_list: Vec<u64> = self.connection_blocked.iter().map(|s| s.0).collect();
+        blocked_list.sort_unstable();
+        crate::connection::verif::StreamsOb {
+            send,
+            write_limit: self.write_limit(),
+            events_queued: self.events.len(),
+            opened_flag: self.opened,
+            sent_max_remote: self.sent_max_remote,
+            max_concurrent_remote: self.max_concurrent_remote_count,
+            blocked_list,
+        }
+    }
+}
+
 impl StreamsState {
     #[allow(unreachable_pub)] // fuzzing only
     pub fn new(
